@@ -1,4 +1,6 @@
 //! usim — deterministic simulator with fault injection for umya-spreadsheet.
+mod annot;
+mod c06;
 mod c11;
 mod c12;
 mod c13;
